@@ -40,7 +40,7 @@ def score : P Score := do
     | some i => pure (.fin i)
     | none => failure
 
-def showScore : Score → String
+def showScoreTok : Score → String
   | .pinf => "inf"
   | .ninf => "-inf"
   | .fin i => toString i
@@ -66,7 +66,7 @@ def showValue : Value → String
   | .list l => " ".intercalate (["L", toString l.length] ++ l.map hexOfBytes)
   | .set m => " ".intercalate (["T", toString m.length] ++ m.map (fun p => showKey p.1))
   | .hash h => " ".intercalate (["H", toString h.length] ++ h.map (fun p => s!"{showKey p.1} {hexOfBytes p.2}"))
-  | .zset z => " ".intercalate (["Z", toString z.length] ++ z.map (fun p => s!"{hexOfBytes p.1} {showScore p.2}"))
+  | .zset z => " ".intercalate (["Z", toString z.length] ++ z.map (fun p => s!"{hexOfBytes p.1} {showScoreTok p.2}"))
 
 /-- the implementation's visible keyspace → a model state (deadline = now + pttl) -/
 def dump (now : Nat) : P State := do
@@ -187,6 +187,42 @@ def side : P Side := do
   | "RIGHT" => pure .right
   | _ => failure
 
+def zflags : P ZFlags := do
+  let t ← tok
+  match t.toList with
+  | [a, b, c, d, e] =>
+    match bit a, bit b, bit c, bit d, bit e with
+    | some a, some b, some c, some d, some e => pure { nx := a, xx := b, gt := c, lt := d, ch := e }
+    | _, _, _, _, _ => failure
+  | _ => failure
+
+def scoreOfString (t : String) : Option Score :=
+  if t == "inf" then some .pinf
+  else if t == "-inf" then some .ninf
+  else match t.toInt? with
+    | some i => some (.fin i)
+    | none => none
+
+/-- `bad` | `i<score>` (inclusive) | `e<score>` (exclusive) -/
+def bound : P (Option Bound) := do
+  let t ← tok
+  if t == "bad" then pure none else
+  match t.toList with
+  | 'i' :: cs => match scoreOfString (String.ofList cs) with
+    | some sc => pure (some { excl := false, v := sc })
+    | none => failure
+  | 'e' :: cs => match scoreOfString (String.ofList cs) with
+    | some sc => pure (some { excl := true, v := sc })
+    | none => failure
+  | _ => failure
+
+def limit : P (Option (Int × Nat)) := do
+  let t ← tok
+  if t == "-" then pure none else
+  match t.toInt? with
+  | some off => do let c ← nat; pure (some (off, c))
+  | none => failure
+
 def cmd : P Cmd := do
   let t ← tok
   match t with
@@ -253,6 +289,20 @@ def cmd : P Cmd := do
   | "HLEN" => do let k ← strKey; pure (.hlen k)
   | "HEXISTS" => do let k ← strKey; let f ← strKey; pure (.hexists k f)
   | "HINCRBY" => do let k ← strKey; let f ← strKey; let d ← int; pure (.hincrby k f d)
+  | "ZADD" => do
+    let k ← strKey; let f ← zflags; let n ← nat
+    let ps ← repeatP n (do let m ← bytesTok; let sc ← score; pure (m, sc))
+    pure (.zadd k f ps)
+  | "ZREM" => do let k ← strKey; let ms ← bytesList; pure (.zrem k ms)
+  | "ZRANGE" => do let k ← strKey; let a ← int; let b ← int; let w ← bool01; pure (.zrange k a b w)
+  | "ZREVRANGE" => do let k ← strKey; let a ← int; let b ← int; let w ← bool01; pure (.zrevrange k a b w)
+  | "ZSCORE" => do let k ← strKey; let m ← bytesTok; pure (.zscore k m)
+  | "ZRANK" => do let k ← strKey; let m ← bytesTok; pure (.zrank k m)
+  | "ZCARD" => do let k ← strKey; pure (.zcard k)
+  | "ZCOUNT" => do let k ← strKey; let lo ← bound; let hi ← bound; pure (.zcount k lo hi)
+  | "ZRANGEBYSCORE" => do
+    let k ← strKey; let lo ← bound; let hi ← bound; let w ← bool01; let l ← limit
+    pure (.zrangebyscore k lo hi w l)
   | "LMOVE" => do let a ← strKey; let b ← strKey; let f ← side; let t ← side; pure (.lmove a b f t)
   | _ => failure
 
